@@ -1,0 +1,47 @@
+//go:build verif
+
+package rtpvp8
+
+// Contracts checked by /verif/govc (see /verif/DESIGN.md). Comment-only file.
+
+//@ ufun sumlen(s [][]byte, n int) int = ite(n <= 0, 0, sumlen(s, n-1) + len(s[n-1]))
+//@   lemma[n; t [][]byte] (forall k :: 0 <= k && k < n ==> len(s[k]) == len(t[k])) ==> sumlen(s, n) == sumlen(t, n)
+//@   trigger sumlen(s, n)
+//@   trigger sumlen(t, n)
+
+// Bounded retention: the size counter equals the retained bytes and is capped.
+//@ typeinv Decoder d
+//@   inv[C08] 0 <= d.frameBufferSize && d.frameBufferSize <= vp8.MaxFrameSize
+//@   inv[C08] d.frameBufferSize == sumlen(d.frameBuffer, len(d.frameBuffer))
+//@   inv[C08] d.frameBuffer == nil ==> d.frameBufferSize == 0
+
+//@ func joinFragments
+//@   requires size >= 0 && size <= 281474976710656
+//@   ensures len(ret) == size && fresh(ret)
+//@   modifies fresh
+
+// C07 (resynchronisation), per packet: a start packet determines the state by itself; a
+// continuation with the expected sequence number is accepted; any other continuation is
+// refused and drops the partial frame.
+//@ func (d *Decoder) decodeFrameChunk
+//@   opt safety-tag=C08
+//@   requires len(pkt.Payload) <= 65535
+//@   ensures[C07] err == nil && vpkt.S == 1 && vpkt.PID == 0 ==> d.frameNextSeqNum == pkt.SequenceNumber + 1 && d.frameBuffer == nil && d.frameBufferSize == 0
+//@   ensures[C07] err == nil && !(vpkt.S == 1 && vpkt.PID == 0) ==> old(d.frameBufferSize) != 0 && pkt.SequenceNumber == old(d.frameNextSeqNum) && d.frameNextSeqNum == old(d.frameNextSeqNum) + 1 && d.frameBufferSize == old(d.frameBufferSize) && sameslice(d.frameBuffer, old(d.frameBuffer))
+//@   ensures[C07] local(err) == nil && len(vpkt.Payload) != 0 && !(vpkt.S == 1 && vpkt.PID == 0) && old(d.frameBufferSize) != 0 && pkt.SequenceNumber == old(d.frameNextSeqNum) ==> err == nil
+//@   ensures[C07] local(err) == nil && len(vpkt.Payload) != 0 && vpkt.S == 1 && vpkt.PID == 0 ==> err == nil
+//@   ensures[C07] err != nil && err != ErrNonStartingPacketAndNoPrevious && (old(d.frameBufferSize) != 0 || local(err) != nil || len(vpkt.Payload) == 0) ==> d.frameBuffer == nil && d.frameBufferSize == 0
+//@   ensures[C08] err == nil ==> (d.frameBuffer == nil && d.frameBufferSize == 0) || (sameslice(d.frameBuffer, old(d.frameBuffer)) && d.frameBufferSize == old(d.frameBufferSize))
+//@   ensures[C08] err == nil ==> len(ret) >= 1 && len(ret) <= 65535
+//@   ensures[C08] err != nil ==> ret == nil
+//@   modifies fields(d), fresh
+
+//@ func (d *Decoder) Decode
+//@   opt safety-tag=C08
+//@   opt frame-tag=C08
+//@   requires len(pkt.Payload) <= 65535
+//@   ensures[C08] err != nil || len(ret) > 0
+//@   ensures[C08] err == nil ==> len(ret) <= vp8.MaxFrameSize && fresh(ret)
+//@   ensures[C08] err != nil ==> ret == nil
+//@   ensures[C07] err == nil ==> d.frameBuffer == nil && d.frameBufferSize == 0
+//@   modifies fields(d), elems(d.frameBuffer), fresh
